@@ -45,7 +45,8 @@ LEVEL_TEXT = ('exhaustive over all positions of up to 4 change points relative t
               'levels (every residue of change point vs. grid, every grid vs. range length relation incl. step > range), '
               'plus realistic lengths around the default step 60; longer ranges only repeat the same grid relations')
 
-KINDS = ['int', 'str', 'dict', 'none-first', 'tuple2', 'tuple3', 'noisy']
+KINDS = ['int', 'str', 'dict', 'none-first', 'tuple2', 'tuple3', 'noisy', 'falsy', 'countdown']
+FALSY = ['a', '', 0, [], None, {}, 0.5]   # a history whose LATER values are falsy Python objects (all pairwise different)
 
 
 class OutOfRange(Exception):
@@ -68,6 +69,10 @@ def make_value(kind, k, level):
         return (k, 'x', 'y')
     if kind == 'noisy':
         return {'v': k, 'noise': level}
+    if kind == 'falsy':
+        return FALSY[k] if k < len(FALSY) else f'w{k}'
+    if kind == 'countdown':
+        return 2 - k
     raise ValueError(kind)
 
 
@@ -209,7 +214,7 @@ def grid(tier):
     if tier == 'quick':
         for L in range(0, 15):
             for last in (0, 5):
-                out.append((L, last, 3, KINDS if L <= 8 else ['int'], None, 0, 1))
+                out.append((L, last, 3, KINDS if L <= 8 else ['int', 'falsy'], None, 0, 1))
         for part in range(8):
             out.append((120, 5, 1, ['int'], 'spot', part, 8))
     else:
@@ -217,7 +222,7 @@ def grid(tier):
             for last in (0, 5):
                 n = 8 if L > 30 else (4 if L > 16 else 1)
                 for part in range(n):
-                    out.append((L, last, 4 if L <= 24 else 3, KINDS if L <= 10 else ['int'], None, part, n))
+                    out.append((L, last, 4 if L <= 24 else 3, KINDS if L <= 10 else ['int', 'falsy'], None, part, n))
         for L in (100, 120, 180, 300):
             for part in range(16):
                 out.append((L, 5, 2, ['int'], 'spot', part, 16))
